@@ -6,6 +6,7 @@ import (
 	"encoding/xml"
 	"fmt"
 	"io"
+	"mellium.im/xmpp/stream"
 	"regexp"
 	"strings"
 	"sync"
@@ -186,6 +187,9 @@ func saslBindServer() []xmpp.StreamFeature {
 // instrumented features for the "failing voluntary feature" handshake
 var stepFailed bool
 
+// failWithStreamError: the failing feature returns a stream-level error value.
+var failWithStreamError bool
+
 func failingVoluntary() xmpp.StreamFeature {
 	return xmpp.StreamFeature{
 		Name: xml.Name{Space: "urn:vf", Local: "f"},
@@ -204,6 +208,10 @@ func failingVoluntary() xmpp.StreamFeature {
 				r.Close()
 			}
 			stepFailed = true
+			if failWithStreamError {
+				// a failure the library may want to report to the peer as well
+				return 0, nil, stream.PolicyViolation
+			}
 			return 0, nil, fmt.Errorf("voluntary feature failed")
 		},
 	}
@@ -296,6 +304,16 @@ var handshakes = []handshake{
 		r.stepErr = stepFailed
 		return r
 	}},
+	{"failing-voluntary-stream-error-then-bind-initiator", func(f fault) result {
+		failWithStreamError = true
+		defer func() { failWithStreamError = false }()
+		return handshakeByName("failing-voluntary-then-bind-initiator").run(f)
+	}},
+	{"failing-voluntary-stream-error-then-bind-receiver", func(f fault) result {
+		failWithStreamError = true
+		defer func() { failWithStreamError = false }()
+		return handshakeByName("failing-voluntary-then-bind-receiver").run(f)
+	}},
 	{"sasl-bind-receiver", receiver(xmpp.Secure, false, saslBindServer, func(step int, w string) string {
 		switch step {
 		case 0, 2:
@@ -346,6 +364,20 @@ var handshakes = []handshake{
 		}
 		return res
 	}},
+}
+
+// handshakeByName is set in init (the table refers to itself through it).
+var handshakeByName func(n string) handshake
+
+func init() {
+	handshakeByName = func(n string) handshake {
+		for _, h := range handshakes {
+			if h.name == n {
+				return h
+			}
+		}
+		panic("c04: no handshake " + n)
+	}
 }
 
 type baseline struct {
